@@ -12,6 +12,7 @@ mod c14;
 mod c15;
 mod c16;
 mod c17;
+mod c18;
 mod c16conf;
 mod c19;
 mod c20;
@@ -42,6 +43,7 @@ fn registry(id: &str) -> Option<(RunFn, ReplayFn)> {
         "C15" => Some((c15::run, c15::replay)),
         "C16" => Some((c16::run, c16::replay)),
         "C17" => Some((c17::run, c17::replay)),
+        "C18" => Some((c18::run, c18::replay)),
         "C19" => Some((c19::run, c19::replay)),
         "C20" => Some((c20::run, c20::replay)),
         _ => None,
@@ -65,6 +67,7 @@ fn main() {
             ("C16", "one") => c16::worker_one(arg),
             ("C16", _) => c16::worker(fam, start, end, step, arg),
             ("C02", _) | ("C04", _) => c02::worker(fam, start, end, step, arg),
+            ("C18", _) => c18::worker(fam, start, end, step, arg),
             _ => panic!("unknown worker"),
         }
         return;
